@@ -280,7 +280,11 @@ func (v *VStruct) exist(isValidTvKind bool, structName, fieldName, cusMsg string
 	if tv.IsZero() {
 		return
 	}
-	switch tv.Kind() {
+	kind := tv.Kind()
+	if kind == reflect.Ptr && RemoveTypePtr(tv.Type()).Kind() != reflect.Struct {
+		kind = reflect.Invalid // pointer to a non-struct (e.g. *int32): nothing to descend into, handled like a plain value
+	}
+	switch kind {
 	case reflect.Ptr, reflect.Struct:
 		if tv.Type() == timeReflectType {
 			return
